@@ -82,6 +82,11 @@ Steps == /\ Rec[l].ev = "Steps"
                /\ stats' = [stats EXCEPT !.steps = @ + Len(S)]
          /\ UNCHANGED <<sp, end, tbl, under, desc>>
 
+(* a new leg of a stop-and-go run: the step monitors restart from the state the library call left *)
+Stage == /\ Rec[l].ev = "Stage"
+         /\ prev' = <<>>
+         /\ UNCHANGED <<sp, end, tbl, under, off0, desc, viol, stats>>
+
 StepCap == /\ Rec[l].ev = "stepcap"
            /\ Report(<<"StepCap">>)
            /\ Bump("stepcaps")
@@ -123,7 +128,7 @@ End == /\ Rec[l].ev = "end"
        /\ UNCHANGED <<sp, end, tbl, under, prev, off0, desc, viol>>
 
 TNext == /\ l <= Len(Rec) /\ l' = l + 1
-         /\ (Begin \/ Header \/ Build \/ Skipped \/ Table \/ Steps \/ StepCap \/ Final \/ Walk
+         /\ (Begin \/ Header \/ Build \/ Skipped \/ Table \/ Steps \/ Stage \/ StepCap \/ Final \/ Walk
              \/ EstTimes \/ Dispatch \/ Panic \/ End)
 TSpec == TInit /\ [][TNext]_tvars
 
